@@ -275,7 +275,7 @@ def configs(tier):
                 continue
             if method == 'shrinkage_eye':
                 continue     # inverse of the piecewise-rational Ledoit-Wolf estimate: z3 unknown at 40 s -> outside
-            for P in ([2] if (quick or shr) else [2, 3]):
+            for P in [2]:      # 3x3 symbolic inverse of a sample covariance: z3 does not finish -> outside
                 if method == 'diag' and P == 3 and quick:
                     continue
                 out.append(dict(case='prec', kind=kind, method=method, n=3 if P == 2 else 4, P=P,
